@@ -29,7 +29,7 @@ PROPS = {
         ],
     },
     "C02": {
-        "workloads": [("conn", "c02", 8000, 120000, None)],
+        "workloads": [("conn", "c02", 8000, 120000, None), ("conn", "c01", 2500, 30000, None)],
         "rule": (
             "one case = a valid generated design with one ill-formedness planted by a single edit: class drawn from {direct / member / port-reference / array width mismatch, "
             "missing or surplus connection, reference to a non-existent port or bundle member, out-of-range index, empty slice, signal owned by another module or by none, "
